@@ -207,6 +207,9 @@ func runObjective(c *tcase, routine string) error {
 	if c.Class == "epsilon_unattainable" {
 		return runEpsilon(c, routine)
 	}
+	if c.Class == "domain_error" || c.Class == "domain_nan" {
+		return runDomain(c, routine)
+	}
 	switch routine {
 	case "lineSearch":
 		phi := func(alpha ConstScalar) (MagicScalar, error) {
@@ -336,6 +339,131 @@ func runEpsilon(c *tcase, routine string) error {
 		_, err = newton.RunMin(f, x0, eps)
 	default:
 		vh.Fatal("routine not bound for the epsilon class: " + routine)
+	}
+	return err
+}
+
+// exact Newton cycles: m = <<start, c0, c1, ...>>, polynomial c0 + c1 x + ...
+func runPolynomial(c *tcase, routine string) error {
+	if len(c.M) < 3 {
+		vh.Fatal("bad polynomial case")
+	}
+	x0 := NewDenseFloat64Vector([]float64{float64(c.M[0])})
+	co := c.M[1:]
+	horner := func(y Scalar, x ConstScalar) {
+		y.SetFloat64(float64(co[len(co)-1]))
+		for j := len(co) - 2; j >= 0; j-- {
+			y.Mul(y, x)
+			y.Add(y, ConstFloat64(float64(co[j])))
+		}
+	}
+	froot := func(x ConstVector) (MagicVector, error) {
+		y := NullDenseReal64Vector(1)
+		horner(y.At(0), x.ConstAt(0))
+		return y, nil
+	}
+	f := func(x ConstVector) (MagicScalar, error) {
+		y := NewReal64(0)
+		horner(y, x.ConstAt(0))
+		return y, nil
+	}
+	var err error
+	switch routine {
+	case "newtonRoot":
+		_, err = newton.RunRoot(froot, x0)
+	case "newtonCrit":
+		_, err = newton.RunCrit(f, x0)
+	case "newtonMin":
+		_, err = newton.RunMin(f, x0)
+	default:
+		vh.Fatal("routine not bound for the polynomial class: " + routine)
+	}
+	return err
+}
+
+// restricted domain: sum x_i^2 on x_i >= 1/2, error or NaN outside;
+// m = <<x0n, x0d, hn, hd>>
+func runDomain(c *tcase, routine string) error {
+	if len(c.M) != 4 {
+		vh.Fatal("bad domain case")
+	}
+	n := c.N
+	start := float64(c.M[0]) / float64(c.M[1])
+	h := float64(c.M[2]) / float64(c.M[3])
+	x0 := NullDenseFloat64Vector(n)
+	for i := range x0 {
+		x0[i] = start
+	}
+	outside := func(v float64) bool { return !(v >= 0.5) }
+	f := func(x ConstVector) (MagicScalar, error) {
+		y := NewReal64(0)
+		t := NewReal64(0)
+		out := false
+		for i := 0; i < x.Dim(); i++ {
+			if outside(x.ConstAt(i).GetFloat64()) {
+				out = true
+			}
+			t.Mul(x.ConstAt(i), x.ConstAt(i))
+			y.Add(y, t)
+		}
+		if out {
+			if c.Class == "domain_error" {
+				return nil, errors.New("argument outside the domain")
+			}
+			y.Mul(y, ConstFloat64(math.NaN()))
+		}
+		return y, nil
+	}
+	froot := func(x ConstVector) (MagicVector, error) {
+		y := NullDenseReal64Vector(x.Dim())
+		for i := 0; i < x.Dim(); i++ {
+			y.At(i).Set(x.ConstAt(i)) // gradient direction of x^2/2: root at 0, outside the domain
+			if outside(x.ConstAt(i).GetFloat64()) {
+				if c.Class == "domain_error" {
+					return nil, errors.New("argument outside the domain")
+				}
+				y.At(i).Mul(y.At(i), ConstFloat64(math.NaN()))
+			}
+		}
+		return y, nil
+	}
+	var err error
+	switch routine {
+	case "lineSearch":
+		// along the descent direction from the start: phi(alpha) = f(x0 - alpha x0)
+		phi := func(alpha ConstScalar) (MagicScalar, error) {
+			x := NullDenseReal64Vector(n)
+			for i := 0; i < n; i++ {
+				x.At(i).Mul(alpha, ConstFloat64(-start))
+				x.At(i).Add(x.At(i), ConstFloat64(start))
+			}
+			return f(x)
+		}
+		_, err = lineSearch.Run(phi, Float64Type)
+	case "rprop":
+		_, err = rprop.Run(f, x0, 0.01, []float64{1.2, 0.5})
+	case "gradientDescent":
+		_, err = gradientDescent.Run(f, x0, 0.1)
+	case "newtonRoot":
+		_, err = newton.RunRoot(froot, x0)
+	case "newtonCrit":
+		_, err = newton.RunCrit(f, x0)
+	case "newtonMin":
+		_, err = newton.RunMin(f, x0)
+	case "bfgs":
+		args := []interface{}{}
+		if c.M[2] != c.M[3] {
+			b0 := NullDenseFloat64Matrix(n, n)
+			for i := 0; i < n; i++ {
+				b0.At(i, i).SetFloat64(h)
+			}
+			args = append(args, bfgs.Hessian{Value: b0})
+		}
+		_, err = bfgs.Run(f, x0, args...)
+	case "adam":
+		_, err = adam.Run(f, x0)
+	default:
+		vh.Fatal("routine not bound for the domain class: " + routine)
 	}
 	return err
 }
@@ -478,6 +606,8 @@ func termChild(args []string) {
 					rerr = runMatrix(c, cl.R)
 				case "linesearch":
 					rerr = runLineSearch(c)
+				case "polynomial":
+					rerr = runPolynomial(c, cl.R)
 				default:
 					rerr = runObjective(c, cl.R)
 				}
